@@ -451,4 +451,14 @@ def main(argv=None):
 
 
 if __name__ == '__main__':
-    sys.exit(main())
+    try:
+        rc = main()
+        sys.stdout.flush()
+    except BrokenPipeError:
+        # the reader of our stdout went away (e.g. `| head`); the verdict is in the evidence file
+        try:
+            sys.stdout = open(os.devnull, 'w')
+        except OSError:
+            pass
+        rc = 1
+    sys.exit(rc)
